@@ -430,6 +430,32 @@ async fn scripted(name: &str, case: usize, summary: &mut Summary) -> (Sim, Strin
                 det_block(&mut sim, 50_000, vec![], 50, case, summary, &desc, &mut t2).await;
             }
         }
+        // an NFT group (Bound, payload, Bound) that stays unspent for more than two windows, fee per
+        // byte 0 (tiny fees): it must travel together at the first AND at the second rebroadcast
+        "nft-two-windows" => {
+            sim = Sim::new(3, 8, 4, ISS, 1_000_000).await;
+            let mut triples = 0;
+            for k in 0..11 {
+                let extra = if k == 0 {
+                    let ts = sim.tip().timestamp + 2 * HEARTBEAT + 1000;
+                    let s = sim.spendable().into_iter().find(|s| s.public_key == sim.keys[1].0 && s.amount == 333_000).unwrap();
+                    vec![nft_create(&sim, &s, 300_000, 33_000, ts)]
+                } else {
+                    vec![]
+                };
+                let before = tally.expiring;
+                let (_sr, alive) = det_block(&mut sim, 10, extra, k, case, summary, &desc, &mut tally).await;
+                let _ = before;
+                if !alive {
+                    break;
+                }
+                let b = sim.tip();
+                if b.transactions.iter().any(|t| t.transaction_type == TransactionType::ATR && t.to.len() == 3 && t.to[0].slip_type == SlipType::Bound) {
+                    triples += 1;
+                }
+            }
+            summary.count("scripted", &format!("{}:group-rebroadcasts-{}", name, triples));
+        }
         _ => unreachable!(),
     }
     summary.count("scripted", name);
@@ -462,6 +488,7 @@ async fn main() {
         "atr-extra-for-spent-output",
         "atr-input-substituted",
         "block-id-jump",
+        "nft-two-windows",
     ] {
         let case = descs.len();
         let r = futures_catch(AssertUnwindSafe(scripted(name, case, &mut summary))).await;
